@@ -230,12 +230,66 @@ def l126():
 
 R.add('L12.6', l126, [{}], desc='ServerContext setters', expect=['ServerContext settings are stored as given'])
 
+# ------------------------------------------------------------------ L12.7 server sweep with configured timeouts (real loop)
+def l127():
+    """settings made on the ServerContext before the server starts are the ones the real loop uses: a client
+    that goes silent is dropped (disconnect event) at the first tick at which its silence has reached the
+    configured connection timeout, and not before; new connections get the configured keep-alive interval and
+    message timeout"""
+    from . import loop
+    T = symreal('connection_timeout', lo=0.5, hi=50)
+    ka = symreal('keep_alive', lo=0.05, hi=0.4)
+    mt = symreal('message_timeout', lo=0.5, hi=50)
+    D = symreal('silence', lo=0, hi=100)
+    state = {}
+
+    def script(world, tick):
+        if tick == 1:
+            state['b'] = loop.Peer(world, ('10.0.0.2', 5002))
+            state['b'].c._sendClientHello()
+            world.inject(state['b'].emit(), state['b'].addr)
+            return
+        b = state['b']
+        if tick <= 4:
+            b.absorb()
+            raw = b.emit()
+            if raw is not None:
+                world.inject(raw, b.addr)
+        if tick == 5:
+            sb = world.ctxt.connections.get(b.addr)
+            if sb is not None:
+                state['sb'] = sb
+                state['last_recv'] = sb.last_recv_time
+                world.clock.advance(D)             # the client is silent for D seconds
+                state['silence'] = world.clock.now - sb.last_recv_time
+        if tick == 6:
+            state['dropped_at_6'] = any(e[0] == 'disconnect' for e in world.handler.events)
+
+    world = loop.World(6, script)
+    world.ctxt.setConnectionTimeout(T)
+    world.ctxt.setKeepAliveInterval(ka)
+    world.ctxt.setMessageTimeout(mt)
+    world.run()
+    check(world.escaped is None, 'loop ran')
+    check('sb' in state, 'client connected before going silent')
+    sb = state['sb']
+    check(And(sb.send_keep_alive_interval == ka, sb.outgoing_timeout == mt), 'new connections use the configured keep-alive interval and message timeout')
+    silence = state['silence']
+    check(Iff(silence >= T, state.get('dropped_at_6', False)), 'a silent client is dropped exactly when its silence has reached the configured connection timeout')
+
+
+R.add('L12.7', l127, [{}], desc='real server loop: configured connection timeout / keep-alive / message timeout are the ones used',
+      expect=['a silent client is dropped exactly when its silence has reached the configured connection timeout',
+              'new connections use the configured keep-alive interval and message timeout'])
+
 import sys as _sys  # noqa: E402
 from sx.models import stubs_m  # noqa: E402
 # replay drives the real UdpClient: its socket and select are the recording stand-ins (no network in the sandbox)
-NETPATCH = [('mpgameserver.client', 'socket', stubs_m.socket_module), ('mpgameserver.client', 'select', stubs_m.select_module)]
+NETPATCH = [('mpgameserver.client', 'socket', stubs_m.socket_module), ('mpgameserver.client', 'select', stubs_m.select_module),
+            ('mpgameserver.server', 'Condition', stubs_m.Condition), ('mpgameserver.twisted', 'reactor', stubs_m.reactor)]
 for _l in R.lemmas.values():
     if _l.replay is None:
-        _l.replay = generic_replay(_l.func, [proto, _sys.modules[__name__]], patches=NETPATCH)
+        from . import loop as _loop
+        _l.replay = generic_replay(_l.func, [proto, _loop, _sys.modules[__name__]], patches=NETPATCH)
 
 get_harness = R.get_harness
